@@ -881,6 +881,28 @@ func (t *tester) misc(which int) {
 				}
 			}
 		}
+		// a query that carries the options block of its property's index type PLUS a well-formed
+		// superfluous block of another type: the filter that is executed is the one inside the
+		// property's own block, so that is the one that must be checked against the schema
+		{
+			bad := []struct {
+				what string
+				q    map[string]any
+			}{
+				{"vector of the wrong length", map[string]any{"property": "vec", "vectorVamana": map[string]any{"vector": []any{1.0}, "operator": "near", "searchSize": 75, "limit": 5}}},
+				{"unknown property", map[string]any{"property": "nosuch", "integer": map[string]any{"value": 1, "operator": "equals"}}},
+				{"wrong option type for the property", map[string]any{"property": "a", "string": map[string]any{"value": "x", "operator": "equals"}}},
+			}
+			okFilter := map[string]any{"property": "a", "integer": map[string]any{"value": 1, "operator": "equals"}}
+			for _, b := range bad {
+				decoyFlat := map[string]any{"vector": []any{1.0, 1.0}, "operator": "near", "limit": 5, "filter": okFilter}
+				q := map[string]any{"property": "vec", "vectorFlat": decoyFlat, "vectorVamana": map[string]any{"vector": []any{1.0, 1.0}, "operator": "near", "searchSize": 75, "limit": 5, "filter": b.q}}
+				t.exec(cl.JSON("POST", "/v2/collections/colv2/points/search", "alice", "basic", map[string]any{"query": q, "limit": 5}), "invalid", fmt.Sprintf("graph query with a superfluous vectorFlat block whose own filter has a member with %s", b.what))
+				decoyVam := map[string]any{"vector": []any{1.0, 1.0}, "operator": "near", "searchSize": 75, "limit": 5, "filter": okFilter}
+				q2 := map[string]any{"property": "flat", "vectorVamana": decoyVam, "vectorFlat": map[string]any{"vector": []any{1.0, 1.0}, "operator": "near", "limit": 5, "filter": b.q}}
+				t.exec(cl.JSON("POST", "/v2/collections/colv2/points/search", "alice", "basic", map[string]any{"query": q2, "limit": 5}), "invalid", fmt.Sprintf("flat query with a superfluous vectorVamana block whose own filter has a member with %s", b.what))
+			}
+		}
 		// an index entry that carries the parameter block of its own type plus a
 		// superfluous block of another type with a different vector size: if the
 		// collection is accepted, the dimension in force is the one of its type
@@ -953,7 +975,7 @@ func (t *tester) misc(which int) {
 
 func master(cfg *harness.Config, rep *harness.Report) {
 	rep.Level = "exploration"
-	rep.Rule = "(a) every byte string of length <= L over a structural alphabet (JSON: { } [ ] \" : , 1 - e . a \\\\ space; MessagePack: fixmap/fixarray/str/nil/bool/float/int/array16/map16 lead bytes) as the body of each of the 10 body-taking routes of both API versions; (b) for 11 valid base requests (v2 create / insert / update / delete / hybrid search with nested filters, select, sort, paging / binary flat search; v1 create / insert / update / delete / search) every node of the request tree deleted or replaced by each of 34 values (null, booleans, 0, ±1, 1e400, 2^63, 2^63-1, -2^63, empty / reserved / dotted / 3000-byte strings, empty and nested arrays and objects, boundary numbers 24/76/101/4096/4097/10001, malformed and valid uuids, ...), in JSON and MessagePack, plus duplicate keys; (c) header / content-type variants, body-less and unknown routes, every v1 route on a v2 collection and vice versa, v1 searches with every boundary limit on a v1-shaped collection created through v2 with searchSize 25, quota and size limits, vector lengths 1/4096/4097, composite queries that carry both sub-query lists (the executed one has a schema-violating member), index entries with a superfluous parameter block of another type (the dimension in force is the one of the entry's type), nesting depth 10..10^6. Oracle: never a 5xx or a dead worker; requests that certainly violate the schema must get 4xx; after any 4xx the digest of all collections and points is unchanged; unmodified base requests succeed. distinct_nontrivial = distinct (route, status class, expectation) tuples"
+	rep.Rule = "(a) every byte string of length <= L over a structural alphabet (JSON: { } [ ] \" : , 1 - e . a \\\\ space; MessagePack: fixmap/fixarray/str/nil/bool/float/int/array16/map16 lead bytes) as the body of each of the 10 body-taking routes of both API versions; (b) for 11 valid base requests (v2 create / insert / update / delete / hybrid search with nested filters, select, sort, paging / binary flat search; v1 create / insert / update / delete / search) every node of the request tree deleted or replaced by each of 34 values (null, booleans, 0, ±1, 1e400, 2^63, 2^63-1, -2^63, empty / reserved / dotted / 3000-byte strings, empty and nested arrays and objects, boundary numbers 24/76/101/4096/4097/10001, malformed and valid uuids, ...), in JSON and MessagePack, plus duplicate keys; (c) header / content-type variants, body-less and unknown routes, every v1 route on a v2 collection and vice versa, v1 searches with every boundary limit on a v1-shaped collection created through v2 with searchSize 25, quota and size limits, vector lengths 1/4096/4097, composite queries that carry both sub-query lists (the executed one has a schema-violating member), vector queries that carry a superfluous options block of another index type (the executed block's filter violates the schema), index entries with a superfluous parameter block of another type (the dimension in force is the one of the entry's type), nesting depth 10..10^6. Oracle: never a 5xx or a dead worker; requests that certainly violate the schema must get 4xx; after any 4xx the digest of all collections and points is unchanged; unmodified base requests succeed. distinct_nontrivial = distinct (route, status class, expectation) tuples"
 	rep.Assumptions = []string{"the grammar is bounded: L<=4 (quick) / 5 (thorough) for JSON and for MessagePack; single mutations only", "one node, two users", "body sizes stay below 12 MB (no request-size limit exists in the server: memory exhaustion by huge bodies is not explored)"}
 	p := pool.New(pool.Options{CPUsPerWorker: 2, JobTimeout: 300 * time.Second, MemLimitKB: 8 << 20})
 	var jobs []job
